@@ -253,7 +253,7 @@ def gen_case(src):
         values[nf(t)] = primes[i]
     # optionally: first single-word name is bound to a context that has an entry named like another word (a.b vs name `a.b`)
     kind = src.weighted([(3, "alone"), (5, "binop"), (2, "paren"), (2, "if"), (3, "for"), (2, "quant"), (3, "ctx"), (2, "fn"), (2, "args"),
-                         (2, "between"), (2, "in"), (2, "filter-index"), (2, "filter-ctx"), (3, "path-head"), (1, "path-chain"), (2, "call"), (5, "glue-probe"), (3, "bound-ctx"), (4, "after-scope"), (3, "nested-entry")])
+                         (2, "between"), (2, "in"), (2, "filter-index"), (2, "filter-ctx"), (3, "path-head"), (1, "path-chain"), (2, "call"), (5, "glue-probe"), (3, "bound-ctx"), (4, "after-scope"), (3, "nested-entry"), (3, "endpoint-shadow")])
     tb = T(src, words, names, values)
     extra_bind = []
     # bystanders: further bound names the expression never mentions, holding values of other shapes (empty / nested contexts, lists of
@@ -422,6 +422,39 @@ def gen_case(src):
         else:
             text, node = "%s in (%s, %s)" % (t1, t2, t3), ["in", n1, [["t_e", n2], ["t_e", n3]]]
             tb.labels.append("followed-by-in:list")
+    elif kind == "endpoint-shadow":
+        # a bound single-word name stands at an end point of a range / in a unary comparison, INSIDE a construct that binds the same
+        # name again to another value (iteration variable, parameter, context entry, entry of a filtered item): the innermost binding
+        # counts there like everywhere else. The inner value is 1 (every outer value is a prime): `1 in [v..1]` is true for the inner one.
+        singles = [t for t in names if len(t) == 1]
+        v = src.choice(singles)
+        vt = v[0]
+        form = src.choice(["range-lo", "range-hi", "unary-le", "unary-ge"])
+        if form == "range-lo":
+            test_text, test_node = "1 in [%s..1]" % vt, ["in", ["num", "1"], [["t_rng", True, ["name", vt], ["num", "1"], True]]]
+        elif form == "range-hi":
+            test_text, test_node = "1 in [1..%s]" % vt, ["in", ["num", "1"], [["t_rng", True, ["num", "1"], ["name", vt], True]]]
+        elif form == "unary-le":
+            test_text, test_node = "1 in (<= %s)" % vt, ["in", ["num", "1"], [["t_cmp", "<=", ["name", vt]]]]
+        else:
+            test_text, test_node = "1 in (>= %s)" % vt, ["in", ["num", "1"], [["t_cmp", ">=", ["name", vt]]]]
+        binder = src.choice(["for", "some", "every", "fn", "ctx", "filter", "none"])
+        one = ["num", "1"]
+        if binder == "for":
+            text, node = "for %s in [1] return %s" % (vt, test_text), ["for", [[vt, ["dl", ["list", [one]]]]], test_node]
+        elif binder in ("some", "every"):
+            text, node = "%s %s in [1] satisfies %s" % (binder, vt, test_text), [binder, [[vt, ["list", [one]]]], test_node]
+        elif binder == "fn":
+            text, node = "(function(%s) %s)(1)" % (vt, test_text), ["call", ["fn", [[vt, None]], test_node], [one]]
+        elif binder == "ctx":
+            text, node = "{%s: 1, r9: %s}.r9" % (vt, test_text), ["path", ["ctx", [[vt, one], ["r9", test_node]]], "r9"]
+        elif binder == "filter":
+            # (two items: a filter that selects exactly one item returns the item itself - the open finding C01/filter-singleton-unwrapped)
+            text = "count([{%s: 1}, {%s: 1}][%s])" % (vt, vt, test_text)
+            node = ["call", ["name", "count"], [["filter", ["list", [["ctx", [[vt, one]]], ["ctx", [[vt, one]]]]], test_node]]]
+        else:
+            text, node = test_text, test_node       # control: the outer binding at the end point
+        tb.labels.append("endpoint:%s:%s" % (form, binder))
     elif kind == "filter-index":
         lname = tb.local()
         tb.bound.add(nf(lname))
